@@ -4,6 +4,7 @@ import (
 	"fmt"
 	"github.com/cuteLittleDevil/go-jt808/protocol/model"
 	"os"
+	"path/filepath"
 	"strings"
 )
 
@@ -80,6 +81,11 @@ func (f *fileEvent) OnEvent(progress *PackageProgress) {
 			len(progress.Record), progress.ExtensionFields.ActiveSafetyType.String())
 		_ = os.MkdirAll(phone, os.ModePerm)
 		for name, pack := range progress.Record {
+			if name != filepath.Base(name) || name == "." || name == ".." {
+				// 文件名是终端上报的 只能是单个文件名 不能带目录 否则会写到手机号目录外面
+				str += fmt.Sprintf("文件名[%s]不合法 不保存\n", name)
+				continue
+			}
 			savePath := fmt.Sprintf("./%s/%s", phone, name)
 			err := os.WriteFile(savePath, pack.StreamBody, os.ModePerm)
 			str += fmt.Sprintf("保存文件[%s] 文件大小[%d byte] 保存情况[%v]\n",
